@@ -791,6 +791,22 @@ pub fn lib_s(lb: &LefLibrary) -> Sexp {
         l(std::iter::once(a("sites")).chain(lb.sites.iter().map(|s| l(vec![a("site"), s_str(&s.name), s_enum(&s.class), l(vec![s_dec(&s.size.0), s_dec(&s.size.1)]), s_opt(&s.symmetry, |v| l(v.iter().map(s_enum).collect()))]))).collect()),
         l(std::iter::once(a("macros")).chain(lb.macros.iter().map(s_macro)).collect())])
 }
+/// text -> library -> writer's text -> its tokens (type, text)
+pub fn op_wtokens(args: &[Sexp]) -> String {
+    let txt = match text_arg(args.get(0)) { Some(t) => t, None => return "bad-op".into() };
+    let lb = match lef21::verif_hooks::parse_str(&txt) { Ok(l) => l, Err(_) => return "err".into() };
+    let w = match lb.to_string() { Ok(w) => w, Err(_) => return "err-write".into() };
+    match lef21::verif_hooks::lex(&w) {
+        Ok(toks) => {
+            let items: Vec<Sexp> = toks.iter().map(|(t, s, e)| {
+                let tt = match t.as_str() { "Name" => "name", "Number" => "number", "SemiColon" => "semi", "StringLiteral" => "string", other => other };
+                l(vec![a(tt), s_str(&w[*s..*e])])
+            }).collect();
+            format!("ok {}", l(items))
+        }
+        Err(_) => "err-lex".into(),
+    }
+}
 pub fn op_parse(args: &[Sexp]) -> String {
     let txt = match text_arg(args.get(0)) { Some(t) => t, None => return "bad-op".into() };
     match lef21::verif_hooks::parse_str(&txt) { Ok(lb) => format!("ok {}", lib_s(&lb)), Err(_) => "err".into() }
@@ -907,7 +923,7 @@ pub fn oracle_c04(line: &str) -> String {
             }
             other => format!("fail {}", other),
         },
-        "lef.lex" | "lef.enum" | "lef.dbu" | "lef.parse" => if res == "panic" { "fail panic".into() } else { "pass".into() },
+        "lef.lex" | "lef.enum" | "lef.dbu" | "lef.parse" | "lef.wtokens" => if res == "panic" { "fail panic".into() } else { "pass".into() },
         _ => "na".into(),
     }
 }
@@ -932,7 +948,7 @@ pub fn oracle_c05(line: &str) -> String {
             }
             other => format!("fail {}", other),
         },
-        "lef.lex" | "lef.parse" => if res == "panic" { "fail panic".into() } else { "pass".into() },
+        "lef.lex" | "lef.parse" | "lef.wtokens" => if res == "panic" { "fail panic".into() } else { "pass".into() },
         _ => "na".into(),
     }
 }
@@ -998,6 +1014,7 @@ pub fn gen_c05(thorough: bool, rng: &mut Rng, out: &mut Vec<String>) {
         let lib = gen_lib(libseed);
         let txt = render(&lib, if i % 2 == 0 { 0 } else { rng.below(1 << 40) });
         out.push(format!("lef.wr {}", text_hex(&txt)));
+        out.push(format!("lef.wtokens {}", text_hex(&txt)));
         if i % 10 == 0 {
             // the writer's own output is lexed by the model too
             if let Ok(w) = lib.to_string() { out.push(format!("lef.lex {}", text_hex(&w))); }
